@@ -326,40 +326,13 @@ def _flag_set_unconditionally(r, f, facts, flag):
     setup = [loc for loc, t in f.calls() if (t.get('callee') or '').endswith('io_uring_setup')]
     if not r.require(len(setup) >= 1, 'build_sys/io_uring_setup', 'io_uring_setup call not found', f.where()):
         return
-    ok = any(f.dominates(h, setup[0]) for h in hits)
-    r.inst('%s dominates io_uring_setup' % flag, f.where(hits[0]))
-    r.require(ok, 'build_sys/' + flag, '%s is only set conditionally before io_uring_setup' % flag, f.where(hits[0]))
-    # and it flows into the `flags` of the parameters aggregate / place
-    flows = False
-    for h in hits:
-        s = f.at(h)
-        # find the local this contributes to, and follow to a write of a place ending in .flags or an aggregate io_uring_params
-        flows = flows or _reaches_params_flags(f, s['lhs'])
-    r.require(flows, 'build_sys/' + flag, '%s does not flow into io_uring_params.flags' % flag, f.where(hits[0]))
-    # later writers of .flags only add bits (x.flags = BitOr(x.flags, c)) and come after the initial write
-    eb0 = ExprBuilder(f)
-    for loc, s in f.assigns():
-        lhs = s['lhs']
-        names = [p.get('name') for p in lhs['p'] if p['k'] == 'field']
-        if not names or names[-1] != 'flags' or not lhs['ty'].startswith('u32'):
-            continue
-        if any(f.dominates(loc, h) or loc == h for h in hits):
-            continue
-        e = eb0.rvalue(s['rv'])
-        self_e = eb0.place(lhs)
-        ok = e[0] == 'bin' and e[1] == 'BitOr' and (e[2] == self_e or e[3] == self_e)
-        if not ok and any(_reaches_params_flags(f, f.at(h)['lhs']) and _writes_same(f, h, loc) for h in hits):
-            ok = True
-        r.inst('flags writer', f.where(loc), str(e))
-        r.require(ok, 'build_sys/flags-writer', 'a later write to parameters.flags is not an OR onto the previous value (may clear %s): %s' % (flag, e), f.where(loc))
-
-
-def _writes_same(f, h, loc):
-    # the initial write itself: hit local flows into this very assignment
-    s = f.at(loc)
-    from .kernel import rvalue_operands
-    hl = f.at(h)['lhs']
-    return any('l' in o and o['l'] == hl['l'] and not o['p'] for o in rvalue_operands(s['rv']))
+    # decided at bit level: on every path from the entry to io_uring_setup the flag's bit is set in parameters.flags
+    # (forward must-analysis through locals, copies, `|`, struct literals and field stores)
+    from .kernel import must_have_bits
+    bit = facts.const('io_uring::libc::' + flag)
+    ok = must_have_bits(f, bit, setup[0], field='flags', struct_suffix='io_uring_params')
+    r.inst('%s (bit %#x) is set in parameters.flags on every path to io_uring_setup: %s' % (flag, bit, ok), f.where(hits[0]))
+    r.require(ok, 'build_sys/' + flag, '%s is not set in io_uring_params.flags on every path to io_uring_setup (set only conditionally, cleared by a later write, or never stored)' % flag, f.where(hits[0]))
 
 
 def _ops_deep(rv):
